@@ -231,11 +231,13 @@ func driver() {
 		}
 		if err := json.Unmarshal([]byte(strings.TrimSpace(r.Stdout)), &res); err != nil {
 			// the worker died: a failure the in-process recover could not contain
-			if crash, what := lib.GoCrash(r); crash {
+			// only a Go-level crash with a trace is a finding; a worker killed from outside
+			// (signal without a trace: OOM killer, operator) decides nothing
+			if crash, what := lib.GoCrash(r); crash && hasGoTrace(r.Stderr) {
 				site := lib.PanicSite(r.Stderr)
 				e.Violation("worker-death@"+site, "layer 1 worker for "+j.ID+" died: "+what, "txt", []byte("# c09 worker "+string(jb)+"\n"+tail(r.Stderr, 6000)))
 			} else {
-				e.Inconclusive(fmt.Sprintf("layer 1 %s: worker exit %d without a result: %s", j.ID, r.Exit, tail(r.Stderr, 300)))
+				e.Inconclusive(fmt.Sprintf("layer 1 %s: worker exit %d %s without a result: %s", j.ID, r.Exit, r.Signal, tail(r.Stderr, 300)))
 			}
 			return
 		}
@@ -353,4 +355,8 @@ func tail(s string, n int) string {
 		return s[len(s)-n:]
 	}
 	return s
+}
+
+func hasGoTrace(stderr string) bool {
+	return strings.Contains(stderr, "goroutine ") && (strings.Contains(stderr, "panic: ") || strings.Contains(stderr, "fatal error: ") || strings.Contains(stderr, "[signal "))
 }
